@@ -11,7 +11,7 @@ VARIABLE sched
 ArrivalsAfter(before, after, p) ==
   {<<q, GateOf(after, q)>> : q \in {r \in Procs : GateOf(after, r) # "" /\ (r = p \/ GateOf(before, r) = "")}}
 
-GenInit == (\E cs \in CSs, n \in NPushes : st = InitState(cs, n)) /\ last = <<"init">> /\ sched = <<>>
+GenInit == (\E cs \in CSs, n \in NPushes, c \in Concs : \E f \in FaultsFor(cs, n) : st = InitState(cs, n, c, f)) /\ last = <<"init">> /\ sched = <<>>
 
 GenNext ==
   \E p \in Procs :
@@ -22,14 +22,15 @@ GenNext ==
        /\ sched' = Append(sched, [p |-> p, g |-> GateOf(st, p),
                                   arr |-> ArrivalsAfter(st, t, p),
                                   blocked |-> {q \in Procs : GateOf(t, q) = "" /\
-                                                 (IF q = Caller THEN t.cpc # "pulling"
+                                                 (IF q = Caller THEN t.cpc \notin {"pulling", "failed"}
                                                   ELSE t.wpc[q[2]] \notin {"none", "done"})}])
 
 GenSpec == GenInit /\ [][GenNext]_<<st, last, sched>>
 
 EmitSchedule ==
   Terminated(st) =>
-    Serialize(ToJson([cs |-> st.cs, npush |-> st.n, sched |-> sched]) \o "\n", IOEnv.OUT,
+    Serialize(ToJson([cs |-> st.cs, npush |-> st.n, conc |-> st.conc, fault |-> st.fault,
+                   reported |-> st.reported, sched |-> sched]) \o "\n", IOEnv.OUT,
               [format |-> "TXT", charset |-> "UTF-8",
                openOptions |-> <<"WRITE", "CREATE", "APPEND">>]).exitValue = 0
 =============================================================================
